@@ -466,7 +466,11 @@ struct dispatch_table
                         ::boost::mpl::filter_view
                             <Stt, boost::mpl::or_<
                                     ::boost::is_base_of<transition_event< ::boost::mpl::placeholders::_>, Event>,
-                                    ::boost::msm::is_kleene_event<transition_event< ::boost::mpl::placeholders::_> >
+                                    // a kleene transition reacts to every event but the internal completion event
+                                    ::boost::mpl::and_<
+                                        ::boost::msm::is_kleene_event<transition_event< ::boost::mpl::placeholders::_> >,
+                                        ::boost::mpl::not_<typename is_completion_event<Event>::type>
+                                        >
                                     >
                             >,
                         // build a map
